@@ -24,6 +24,7 @@ def sh(cmd, cwd=None, env=None, timeout=900):
 def main():
     prop, wt = sys.argv[1], pathlib.Path(sys.argv[2])
     keep = "--keep" in sys.argv
+    offset = int(sys.argv[sys.argv.index("--offset") + 1]) if "--offset" in sys.argv else 0
     props = [c["property_id"] for c in json.load(open(VERIF / "MANIFEST.json"))["checks"]]
     results = []
     for i in (1, 2, 3):
@@ -65,7 +66,7 @@ def main():
                 print(f"    also {p}: exit={rcc} {l[:160]}")
         results.append((i, confirmed, fired, meta))
         if keep and confirmed:
-            d = VERIF / "seeded" / f"{prop}_{i}"
+            d = VERIF / "seeded" / f"{prop}_{i + offset}"
             d.mkdir(parents=True, exist_ok=True)
             shutil.copy(diff, d / "patch.diff")
             shutil.copy(demo, d / "demo.py")
